@@ -1,2 +1,2 @@
-import NipyVerif.Model.C19C
-def main : IO Unit := NipyVerif.driverLoop NipyVerif.C19.runC
+import NipyVerif.Model.C19D
+def main : IO Unit := NipyVerif.driverLoop NipyVerif.C19.runD
